@@ -57,6 +57,8 @@ void h_configure(HConfig &cfg);
 void h_run(Case &c);
 // optional per-process initialisation in the parent (before any fork); default does nothing
 void h_init_parent() __attribute__((weak));
+// optional: called in the parent after every evaluated case, whatever its outcome (C18 restores its fault-injected snapshot here)
+void h_after_case_parent() __attribute__((weak));
 // optional: deterministic named regression cases ("named: <id>" replay files); returns false if the name is unknown.
 // These bypass the generator entirely, so they stay valid when generators change.
 bool h_named(const std::string &name, Case &c) __attribute__((weak));
